@@ -80,10 +80,11 @@ def work(tier, seed):
     return items
 
 
-LONG_CURVES = [{"n": 2100, "targets": "every-segment"}, {"n": 3000, "targets": "every-segment"},
+LONG_CURVES = [{"n": 2100, "targets": "every-segment"}, {"n": 3000, "targets": "every-segment"}, {"n": 4200, "targets": "every-segment"},
+               {"n": 6000, "targets": "every-segment"},
                {"n": 70001, "targets": "near-powers-of-two", "t": 64}, {"n": 2 ** 22 + 5, "targets": "near-powers-of-two", "t": 1},
                {"n": 2 ** 21 + 9, "targets": "near-powers-of-two", "t": 2}, {"n": 1500, "targets": "zigzag", "t": 3000}]
-LONG_CURVES_THOROUGH = [{"n": 4200, "targets": "every-segment"}, {"n": 300001, "targets": "near-powers-of-two", "t": 16},
+LONG_CURVES_THOROUGH = [{"n": 9000, "targets": "every-segment"}, {"n": 300001, "targets": "near-powers-of-two", "t": 16},
                         {"n": 2 ** 23 + 3, "targets": "near-powers-of-two", "t": 1}]
 
 
@@ -352,6 +353,28 @@ def run(item, ctx, tier, seed):
                         judge(ctx, dict(case, t=t, sample_x=xs, sample_y=ya.tolist()), xs, ya.tolist(), t, sol,
                               snip if not callable(metric) else None)
                         ctx.outcome((mname, pt, len(np.asarray(sol).reshape(-1))))
+    # ---- an object whose scores are replaced after a query (same length, same end points, other interior values)
+    pos, neg, vals = ot.concretise(blocks, "irregular", seed)
+    if len(pos) >= 3 and neg and min(pos) < max(pos):
+        for cfg in ot.CFGS[:2]:
+            for pt in ("None", 3):
+                o = Scores(pos[::-1], neg[::-1], score_class=cfg[0], equal_class=cfg[1])
+                points = None if pt == "None" else pt
+                targets = [0.25, 0.5, 0.75]
+                case = {"pos": pos, "neg": neg, "cfg": cfg, "points": pt, "history": "query; pos replaced (same length and end points); query"}
+                ok, _ = guarded(ctx, "threshold_at_metric", case, lambda: o.threshold_at_metric(targets, "tpr", points))
+                sp = sorted(pos)
+                newpos = [sp[0]] + [(sp[0] + v) / 2 + (sp[-1] - sp[0]) / 16 for v in sp[1:-1]] + [sp[-1]]
+                o.pos = np.array(sorted(newpos))
+                fresh = Scores(newpos, neg[::-1], score_class=cfg[0], equal_class=cfg[1])
+                for metric in ("tpr", "fnr", "topr"):
+                    ok1, r1 = guarded(ctx, "threshold_at_metric", dict(case, metric=metric), lambda: o.threshold_at_metric(targets, metric, points))
+                    ok2, r2 = guarded(ctx, "threshold_at_metric", dict(case, metric=metric), lambda: fresh.threshold_at_metric(targets, metric, points))
+                    ctx.tick()
+                    ctx.state()
+                    if ok1 and ok2 and not all(np.array_equal(np.asarray(a_, dtype=float), np.asarray(b_, dtype=float)) for a_, b_ in zip(r1, r2)):
+                        ctx.fail("threshold-search-follows-the-current-scores", dict(case, metric=metric), observed=[np.asarray(a_).tolist() for a_ in r1],
+                                 expected=[np.asarray(b_).tolist() for b_ in r2])
     ctx.sample({"kind": "scores", "blocks": item["blocks"], "metrics": NAMED + ["fnr+fpr", "|fnr-fpr|"],
                 "points": b["points"]})
     return None
